@@ -16,17 +16,17 @@ func init() {
 
 // windowFn discovers, in an apply function, the static callee invoked with
 // (signedData.AnchorFrom, signedData.AnchorUntil, anchoredOp.TransactionTime).
-func (c *Ctx) windowCall(f *ssa.Function, S string) *ssa.Call {
-	var out *ssa.Call
-	for _, cl := range findCalls(f, func(cl *ssa.Call) bool {
+func (c *Ctx) windowCall(f *ssa.Function, S string) *tcall {
+	var out *tcall
+	for _, t := range c.treeCalls(f, nil, 0, func(cl *ssa.Call, env Env) bool {
 		g := cl.Call.StaticCallee()
 		if g == nil || !inModule(g) {
 			return false
 		}
 		a := declArgs(cl)
-		return len(a) == 3 && c.Path(a[0], nil) == S+".AnchorFrom" && c.Path(a[1], nil) == S+".AnchorUntil" && c.Path(a[2], nil) == "$1.TransactionTime"
+		return len(a) == 3 && c.Path(a[0], env) == S+".AnchorFrom" && c.Path(a[1], env) == S+".AnchorUntil" && c.Path(a[2], env) == "$1.TransactionTime"
 	}) {
-		out = cl
+		out = t
 	}
 	return out
 }
@@ -174,16 +174,17 @@ func runC09(c *Ctx) {
 		if pc == nil {
 			continue
 		}
-		sc := c.applierSDCall("C09.G2", typ, f, c.Path(pc, nil))
+		sc := c.applierSDCall("C09.G2", typ, f, pc.P(c))
 		if sc == nil {
 			continue
 		}
-		S := c.Path(sc, nil) + "#0"
-		wc := c.windowCall(f, S)
-		if wc == nil {
+		S := sc.P(c) + "#0"
+		wt := c.windowCall(f, S)
+		if wt == nil {
 			c.Check("C09.G2", typ+":window-call", false, f.Pos(), "no call taking (signedData.AnchorFrom, signedData.AnchorUntil, anchoredOp.TransactionTime) in "+short(f.String()))
 			continue
 		}
+		wc, wcTop := wt.call, wt.top
 		if w := wc.Call.StaticCallee(); !seenW[w] {
 			seenW[w] = true
 			winFns = append(winFns, w)
@@ -209,8 +210,8 @@ func runC09(c *Ctx) {
 		ok, w, _ := c.Guard(f, nil, chkWin, evDoc)
 		c.Check("C09.G2", typ+":patched-doc-only-in-window", ok && apCall != nil, f.Pos(), "the patched document is installed only behind the window check", w...)
 		// out-of-window still advances: commitment installed on every path through the window check, and no refusal after it
-		okAdv := c.storeOnAllPathsAfter(O, "UpdateCommitment", wc)
-		seen := reach(wc.Block(), map[edge]bool{})
+		okAdv := c.storeOnAllPathsAfter(O, "UpdateCommitment", wcTop)
+		seen := reach(wcTop.Block(), map[edge]bool{})
 		for b := range seen {
 			if r, isR := b.Instrs[len(b.Instrs)-1].(*ssa.Return); isR {
 				if r.Results[0] != ssa.Value(A) || c.Path(r.Results[1], nil) != "nil" {
